@@ -8,7 +8,7 @@
    Content-Length model of C03, to the same start line, the same Headers value and the same body. *)
 From Coq Require Import List Arith NArith Bool.
 From Coq.Strings Require Import Byte.
-From EZK Require Import Gen.Tables Lib.Bytes Lib.Num Lib.Utf8 Model.C01 Proofs.C01 Model.C03 Model.C01m Proofs.C01m Model.C01n Proofs.C01n.
+From EZK Require Import Gen.Tables Lib.Bytes Lib.Num Lib.Utf8 Model.C01 Proofs.C01 Model.C03 Model.C01m Proofs.C01m Model.C01n Proofs.C01n Model.C01h Proofs.C01h.
 Import ListNotations.
 Close Scope N_scope.
 Open Scope nat_scope.
@@ -178,3 +178,11 @@ Proof.
   - repeat constructor; try (vm_compute; reflexivity); try discriminate.
   - vm_compute. repeat constructor; cbn; intuition discriminate.
 Qed.
+
+(* IPv4 literals: every address a.b.c.d (all 2^32 of them), printed the way Ipv4Addr prints it and followed by anything that is not
+   a digit (a port, a parameter, the end), is taken by the IPv4 alternative of Host::parse with exactly these four octets - never
+   left to the host name rule *)
+Theorem C01_ip4_literal_roundtrip : forall a b c d rest,
+  (a <= 255)%N -> (b <= 255)%N -> (c <= 255)%N -> (d <= 255)%N -> stops is_digit rest ->
+  parse_host4 (print_ip4 a b c d ++ rest) = IsIP4 a b c d rest.
+Proof. exact ip4_literal_roundtrip. Qed.
